@@ -41,11 +41,20 @@ def call_segmentation(n, mat, mode, scale=1, glob=False):
     tr = tk.mk_track(list(range(n + 1)))
     e = {"ev": "optimalSegmentation", "n": n, "c": mat, "mode": mode, "raised": False, "res": []}
 
-    def cost(track, i, j, g=None):
-        return mat[min(i, j + 1)][max(i, j + 1)] / scale
+    # glob: False -> no global parameter, three-argument cost; otherwise a REQUIRED fourth argument whose value is handed over
+    # (0 and 0.0 are legal values - a penalty or a tolerance of zero - like 7)
+    gval = [7, 0, 0.0][(n + sum(mat[0]) + mode) % 3] if glob else None
+    if glob:
+        def cost(track, i, j, g):
+            if g != gval or type(g) is not type(gval):
+                raise ValueError("global parameter %r handed over as %r" % (gval, g))
+            return mat[min(i, j + 1)][max(i, j + 1)] / scale
+    else:
+        def cost(track, i, j):
+            return mat[min(i, j + 1)][max(i, j + 1)] / scale
     try:
         with core.quiet():
-            r = optimalSegmentation(tr, cost, glob_param=(7 if glob else None), mode=mode, verbose=False)
+            r = optimalSegmentation(tr, cost, glob_param=gval, mode=mode, verbose=False)
         e["res"] = [int(v) for v in r]
     except (Exception, SystemExit) as ex:
         e["raised"] = True
